@@ -337,7 +337,7 @@ def power_supply(ctx):
                              f"inverse subtracts the wrong powers", fn)
 
 
-@rule("C07.lambdify-input", props=["C07"], min_instances=3, mutants=[
+@rule("C07.lambdify-input", props=["C07"], min_instances=6, mutants=[
     ("inverse multiplies the numerator by the denominator", ("codegen", "    denom_inv = alg.scalar([1 / denom])\n    yinv = num * d.e", "    denom_inv = alg.scalar([denom])\n    yinv = num * d.e")),
     ("division lists its arguments as (y, x)", ("codegen", "    args = {'x': x.values(), 'y': y.values()}", "    args = {'y': y.values(), 'x': x.values()}")),
     ("division precomputes with the numerator's scalar", ("codegen", "    dependencies = list(zip(d.values(), denom_inv.values()))\n    return LambdifyInput(\n        funcname=f'div_", "    dependencies = list(zip(d.values(), alg.scalar([1 / num.e]).values()))\n    return LambdifyInput(\n        funcname=f'div_")),
@@ -350,11 +350,13 @@ def lambdify_input(ctx):
     x, y = T.var("x"), T.var("y")
     for q, args, names in (("codegen.codegen_inv", [y], ["y"]), ("codegen.codegen_div", [x, y], ["x", "y"])):
         fn = ctx.func(q)
-        for d in (2, 3):
-            c = f"{q}#lambdify-input,d={d}"
+        for d, ylen in ((2, 3), (3, 3), (3, 1)):
+            c = f"{q}#lambdify-input,d={d}" + (",single-blade operand" if ylen == 1 else "")
             it = tree_interp(repo, d, extra_attrs={"div": Obj("OperatorDict", {"codegen_symbolcls": Obj("symbolcls", {"fmt": "SYMBOLCLS"})})})
             it.t_truth = lambda t: bool(t.terms)
+            it.tvar_facts = {"__len__": {"x": 4, "y": ylen}}      # how many blades the operands store
             ref = tree_interp(repo, d)
+            ref.tvar_facts = {"__len__": {"x": 4, "y": ylen}}
             try:
                 out = it.run(q, list(args))
                 pair = ref.run("codegen.codegen_inv", [y] + ([x] if len(args) == 2 else []), {"symbolic": True})
